@@ -128,6 +128,10 @@ func (m *c09Monitor) AfterTx(r *Run, ctx sdk.Context, tx *TxResult) {
 	}
 	if d := lineDiff(m.preMem, oraclekeeper.VerifDumpDeliver(), ignore); d != "" {
 		memDisc := ep + "|" + errClass(tx) + "|memory"
+		if tx.Op.K == "price3" {
+			memDisc = "first-message-of-failed-oracle-tx|memory"
+			report = r.violateKeepGoing
+		}
 		if tx.CallMode == "nested-revert" {
 			memDisc = "oracle-memory"
 		}
@@ -161,6 +165,10 @@ func c09Plan(unauthorizedBias bool) func(p *PRNG, cfg Config, tier string) Plan 
 				b.Ops = append(b.Ops, x)
 			}
 			for j := range b.Ops {
+				if o := &b.Ops[j]; o.K == "price" && o.M == 0 && o.C2 == 0 && o.E == 0 && o.Amt2 == "" && o.N == 0 && p.Chance(1, 10) {
+					// the report travels in a two-message transaction whose second message is refused
+					o.K = "price3"
+				}
 				if unauthorizedBias && p.Chance(1, 4) {
 					switch b.Ops[j].K {
 					case "dep", "wd", "del", "und", "assoc", "dissoc", "regchain", "regtoken", "updtoken":
